@@ -447,6 +447,8 @@ class Store:
                 syms.update(e.t)
             if len(syms) > FM_SYM_CAP:
                 return False
+        if quick_model(cons, syms, self.ivl):
+            return False
         for s in syms:
             a, b = self.ivl[s]
             cons.append(Aff(-a, {s: 1}))
@@ -456,6 +458,87 @@ class Store:
     def project_bounds(self, e):
         """tightest (lo,hi) of e the store can show cheaply (intervals only)"""
         return self.bounds(e)
+
+
+def quick_model(cons, syms, ivl):
+    """cheap witness search: local bound propagation, then try the all-lower / all-upper corner points.
+    True = a point satisfying every constraint was found (so the system is feasible)."""
+    lo = {}
+    hi = {}
+    for s_ in syms:
+        a, b = ivl[s_]
+        lo[s_] = a
+        hi[s_] = b
+    rows = [(e.c, list(e.t.items())) for e in cons if e.t]
+    for e in cons:
+        if not e.t and e.c < 0:
+            return False
+    for _ in range(16):
+        changed = False
+        for (c, t) in rows:
+            tot = c
+            for s_, k in t:
+                tot += k * hi[s_] if k > 0 else k * lo[s_]
+            if tot < 0:
+                return False       # infeasible by intervals: let the caller's FM confirm (it will, cheaply)
+            for s_, k in t:
+                own = k * hi[s_] if k > 0 else k * lo[s_]
+                rest = tot - own
+                if k > 0:
+                    na = -(rest // k)
+                    if na > lo[s_]:
+                        if na > hi[s_]:
+                            return False
+                        lo[s_] = na
+                        changed = True
+                else:
+                    nb = rest // (-k)
+                    if nb < hi[s_]:
+                        if nb < lo[s_]:
+                            return False
+                        hi[s_] = nb
+                        changed = True
+        if not changed:
+            break
+    for pt in (lo, hi):
+        ok = True
+        for (c, t) in rows:
+            v = c
+            for s_, k in t:
+                v += k * pt[s_]
+            if v < 0:
+                ok = False
+                break
+        if ok:
+            return True
+    # greedy repair from the lower corner: satisfy one violated row at a time by moving the variable with most room
+    pt = dict(lo)
+    for _ in range(60):
+        bad = None
+        for (c, t) in rows:
+            v = c
+            for s_, k in t:
+                v += k * pt[s_]
+            if v < 0:
+                bad = (v, t)
+                break
+        if bad is None:
+            return True
+        need_, t = -bad[0], bad[1]
+        best = None
+        room = -1
+        for s_, k in t:
+            r_ = (hi[s_] - pt[s_]) * k if k > 0 else (pt[s_] - lo[s_]) * (-k)
+            if r_ > room:
+                room, best = r_, (s_, k)
+        if best is None or room <= 0:
+            return False
+        s_, k = best
+        if k > 0:
+            pt[s_] = min(hi[s_], pt[s_] + -(-need_ // k))
+        else:
+            pt[s_] = max(lo[s_], pt[s_] - -(-need_ // (-k)))
+    return False
 
 
 def fm_infeasible(cons, syms):
